@@ -229,11 +229,13 @@ CompareStatus(a, b, ids, shallow) ==
     /\ UNCHANGED <<ridx, hvars>> /\ NoXfer
 
 \* gc(odb, used, shallow, dry); `foreign` = ids passed under another hash name (the same values may also be passed
-\* under the store's own name), `ord` = where they stand in the used collection, `ro` = read-only handle
+\* under the store's own name), `ord` = where they stand in the used collection, `ro` = read-only handle;
+\* cs = the store whose handle is passed as cache_odb (the trees of used directories are loaded from it; cs = s: none
+\* passed), cro = that handle is read-only - which is nobody's business: only the store being collected must be writable
 GcKeep(used, shallow) == used \cup (IF shallow THEN {} ELSE ListsOf(used))
-Gc(s, used, foreign, ord, shallow, dry, ro) ==
+Gc(s, used, foreign, ord, shallow, dry, ro, cs, cro) ==
     /\ Idle /\ "gc" \in Ops
-    /\ LET loadable == shallow \/ \A d \in used \cap Dirs : Present(store, s, d)
+    /\ LET loadable == shallow \/ \A d \in used \cap Dirs : Present(store, cs, d)
            removed  == PresentSet(store, s) \ GcKeep(used, shallow)
        IN IF ro THEN /\ last' = [op |-> "gc", exc |-> "ObjectDBPermissionError"]
                      /\ UNCHANGED <<store, opened, gced>>
@@ -244,7 +246,7 @@ Gc(s, used, foreign, ord, shallow, dry, ro) ==
                            ELSE [store EXCEPT ![s] = [o \in Oids |-> IF o \in removed THEN Absent ELSE @[o]]]
                /\ opened' = IF ~dry /\ shallow /\ used \cap Dirs # {} THEN opened \cup {s} ELSE opened
                /\ gced' = IF ~dry /\ removed # {} THEN gced \cup {s} ELSE gced
-    /\ act' = [op |-> "Gc", s |-> s, used |-> used, foreign |-> foreign, ord |-> ord, shallow |-> shallow, dry |-> dry, ro |-> ro]
+    /\ act' = [op |-> "Gc", s |-> s, used |-> used, foreign |-> foreign, ord |-> ord, shallow |-> shallow, dry |-> dry, ro |-> ro, cs |-> cs, cro |-> cro]
     /\ UNCHANGED <<ridx, delivered, unfin, dev, nx>> /\ NoXfer
 
 (************************** transfer, step by step *************************)
@@ -432,7 +434,7 @@ Next ==
     \/ \E s \in Stores, o \in Oids, ro \in BOOLEAN : Check(s, o, ro)
     \/ \E s \in Stores, ids \in Requests, m \in Modes, ro \in BOOLEAN : Status(s, ids, m[1], m[2], ro)
     \/ \E p \in XferPairs, ids \in Requests, m \in Modes : CompareStatus(p[1], p[2], ids, m[1])
-    \/ \E s \in Stores, used \in Requests, sh \in BOOLEAN, dry \in BOOLEAN : Gc(s, used, {}, "used-first", sh, dry, FALSE)
+    \/ \E s \in Stores, used \in Requests, sh \in BOOLEAN, dry \in BOOLEAN : Gc(s, used, {}, "used-first", sh, dry, FALSE, s, FALSE)
     \/ BeginAny
     \/ \E d \in Dirs : Pick(d)
     \/ \E x \in Oids : PutBound(x) \/ PutDir(x) \/ PutLoose(x)
@@ -534,7 +536,7 @@ Inv_C12_Index == C12_Index(store, ridx, delivered)
 
 \* ---- C06 : garbage collection ------------------------------------------------
 \* S before, T after, a = the Gc action record, L = its result
-GcLoadable(S, a) == a.shallow \/ \A d \in a.used \cap Dirs : Present(S, a.s, d)
+GcLoadable(S, a) == a.shallow \/ \A d \in a.used \cap Dirs : Present(S, a.cs, d)
 C06_UsedKept(S, T, a, L) == (GcKeep(a.used, a.shallow) \cap PresentSet(S, a.s)) \subseteq PresentSet(T, a.s)
 C06_ReadOnly(S, T, a, L) == a.ro => (Refusal(L) /\ PresentSet(T, a.s) = PresentSet(S, a.s))
 C06_Dry(S, T, a, L) == a.dry => PresentSet(T, a.s) = PresentSet(S, a.s)
